@@ -88,6 +88,10 @@ fn stress(seed: u64, rounds: u64, threads: usize, ops: usize, patience: Duration
     use std::sync::Arc;
     let mut total_ops = 0u64;
     for round in 0..rounds {
+        // odd rounds: the full operation mix (also amendments through all three variants, moves to
+        // another price, text / JSON renderings); units are then not accounted for (an amendment's
+        // delta depends on what a concurrent match left), only the state oracles apply
+        let full_mix = round % 2 == 1;
         let level = Arc::new(PriceLevel::new(100));
         let gen = Arc::new(UuidGenerator::new(uuid::Uuid::from_u128(0x57e55)));
         let supplied = Arc::new(AtomicU64::new(0));
@@ -108,6 +112,26 @@ fn stress(seed: u64, rounds: u64, threads: usize, ops: usize, patience: Duration
                 };
                 let mut mine: Vec<OrderId> = Vec::new();
                 for _ in 0..ops {
+                    if full_mix && rnd() % 3 == 0 {
+                        if mine.is_empty() {
+                            continue;
+                        }
+                        let id = mine[(rnd() as usize) % mine.len()];
+                        let q = 1 + rnd() % 12;
+                        let u = match rnd() % 7 {
+                            0 | 1 => OrderUpdate::UpdateQuantity { order_id: id, new_quantity: q },
+                            2 => OrderUpdate::UpdatePriceAndQuantity { order_id: id, new_price: 100, new_quantity: q },
+                            3 => OrderUpdate::Replace { order_id: id, price: 100, quantity: q, side: Side::Sell },
+                            4 => OrderUpdate::UpdatePrice { order_id: id, new_price: 101 },
+                            5 => OrderUpdate::Replace { order_id: id, price: 99, quantity: q, side: Side::Buy },
+                            _ => {
+                                let _ = (serde_json::to_string(&*level).map(|t| t.len()), format!("{:?}", level.stats()).len(), level.snapshot_to_json().map(|t| t.len()));
+                                continue;
+                            }
+                        };
+                        let _ = level.update_order(u);
+                        continue;
+                    }
                     match rnd() % 10 {
                         0..=3 => {
                             let id = OrderId::from_u64(next_id.fetch_add(1, Ordering::Relaxed));
@@ -165,7 +189,7 @@ fn stress(seed: u64, rounds: u64, threads: usize, ops: usize, patience: Duration
             return 1;
         }
         let (a, e, r) = (supplied.load(Ordering::Relaxed), executed.load(Ordering::Relaxed), returned.load(Ordering::Relaxed));
-        if a != e + r + sv + sh {
+        if !full_mix && a != e + r + sv + sh {
             println!("PLAIN STRESS MISMATCH round {round}: {a} units were added but {e} executed + {r} handed back by cancels + {} resting = {}", sv + sh, e + r + sv + sh);
             return 1;
         }
